@@ -161,18 +161,22 @@ Definition m_addr_incomplete : matcher := fun t =>
   | _ => None
   end.
 
-(* zero or more of: '.', digit *)
+(* zero or more of: '.', one or more digits *)
 Fixpoint addr_tail (fuel : nat) (t : text) : nat :=
   match fuel with
   | O => O
   | S f =>
       match t with
-      | 46 :: d :: r => if is_digit d then (2 + addr_tail f r)%nat else O
+      | 46 :: d :: r =>
+          if is_digit d then
+            let k := span_while is_digit r in
+            (2 + k + addr_tail f (skipn k r))%nat
+          else O
       | _ => O
       end
   end.
 
-(* direct address: percent, I Q M, optional size X B W D L, digit, dotted digits; ignore(case) *)
+(* direct address: percent, I Q M, optional size X B W D L, digits, dotted digits; ignore(case) *)
 Definition m_addr : matcher := fun t =>
   match t with
   | 37 :: l :: r =>
@@ -183,7 +187,11 @@ Definition m_addr : matcher := fun t =>
           | [] => (O, r)
           end in
         match r' with
-        | d :: r'' => if is_digit d then Some (2 + s + 1 + addr_tail (List.length r'') r'')%nat else None
+        | d :: r'' =>
+            if is_digit d then
+              let k := span_while is_digit r'' in
+              Some (2 + s + 1 + k + addr_tail (List.length r'') (skipn k r''))%nat
+            else None
         | [] => None
         end
       else None
@@ -216,7 +224,7 @@ Definition regex_matcher (pat : string) (ic : bool) : option matcher :=
   else if String.eqb pat "(?:[0-9][0-9_]*)(?:\.[0-9_]+)" then Some m_fixed
   else if String.eqb pat "[0-9][0-9_]*" then Some m_digits
   else if String.eqb pat "%[IQM]\*" && ic then Some m_addr_incomplete
-  else if String.eqb pat "%[IQM]([XBWDL])?(\d(\.\d)*)" && ic then Some m_addr
+  else if String.eqb pat "%[IQM]([XBWDL])?(\d+(\.\d+)*)" && ic then Some m_addr
   else None.
 
 Close Scope string_scope.
